@@ -7,7 +7,7 @@ KINDS = {'wr', 'wrf', 'call', 'arg'}
 MASKS = {"zero": [0, 0, 0, 0], "ones": [255, 255, 255, 255], "lanes": [1, 2, 4, 8], "random": None}
 
 
-def scenario(case, mask, seed, reconnect=False, nct=False):
+def scenario(case, mask, seed, reconnect=False, nct=False, cwb=None):
     sc = {"conns": [{"stream": [{"t": "http", "v": "ok"}]}], "seed": seed,
           "react": {"ready#0": [["api", case['m'], {"cls": case['cls'], "len": case['len'], "plane": case['plane'],
                                                     "flag": case['flag'], "code": case['code']}]]},
@@ -17,12 +17,12 @@ def scenario(case, mask, seed, reconnect=False, nct=False):
         sc['ws_kwargs'] = {"compress": True}
     if MASKS[mask] is not None:
         sc['mask'] = MASKS[mask]
-    if nct:
-        # negotiated with client_no_context_takeover: the same call is made twice with the same content, a peer that inflates every
-        # message afresh must restore the second one (judged: the records of the second call)
-        sc['conns'][0]['stream'][0]['ext'] = 'permessage-deflate; client_no_context_takeover'
+    if nct or cwb:
+        # negotiated with client_no_context_takeover / a small client_max_window_bits: the same call is made twice with the same content, a
+        # peer that inflates every message afresh / with exactly that window must restore the second one (judged: the records of the second call)
+        sc['conns'][0]['stream'][0]['ext'] = 'permessage-deflate; client_no_context_takeover' if nct else 'permessage-deflate; client_max_window_bits=%d' % cwb
         sc['ws_kwargs'] = {"compress": True}
-        sc['peer'] = {"swb": 15, "cwb": 15, "s_nct": False, "c_nct": True}
+        sc['peer'] = {"swb": 15, "cwb": cwb or 15, "s_nct": False, "c_nct": bool(nct)}
         call = sc['react']['ready#0'][0]
         call[2]['fixed'] = True
         sc['react']['ready#0'] = [call, [call[0], call[1], dict(call[2])]]
@@ -40,7 +40,7 @@ def run(tier, seed):
     r = pipeline.Run('C03', tier, seed)
     r.rule = ('every row of the API table of spec/GenC03.tla (6 methods x argument classes valid / wrong type / oversize x payload lengths '
               '0,1,125,126,127,65535,65536,65537 x Unicode planes / byte patterns x close codes and reason lengths 0,1,122,123 / 124,125,200 '
-              'x compression negotiated? x compress flag) executed on a Ready connection with %d masking keys each (compressible calls also repeated under client_no_context_takeover); non-trivial = distinct '
+              'x compression negotiated? x compress flag) executed on a Ready connection with %d masking keys each (compressible calls also repeated under client_no_context_takeover, and - 3000 to 20000 bytes long - under client_max_window_bits 9, 10, 12); non-trivial = distinct '
               'cases in which a frame was written' % (2 if q else 4))
     r.assumptions = ['the independent server-side decoder (harness/codec.py) and zlib peer are trusted',
                      'send_json: the written text must parse back to the caller\'s object (json.loads)']
@@ -61,6 +61,10 @@ def run(tier, seed):
         if c['case']['neg'] and c['case']['flag'] and c['case']['cls'] == 'valid' and c['case']['m'] in ('send_text', 'send_binary', 'send_json') \
                 and c['case']['len'] in (125, 126, 127):
             jobs.append((c, 'nct', scenario(c['case'], 'random', seed + len(jobs), nct=True)))
+        if c['case']['neg'] and c['case']['flag'] and c['case']['cls'] == 'valid' and c['case']['m'] in ('send_text', 'send_binary') and c['case']['len'] == 127:
+            for cwb, n in ((9, 3000), (10, 5000), (12, 20000)):
+                big = dict(c, case=dict(c['case'], len=n))          # the second copy lies further back than a 2^cwb window reaches
+                jobs.append((big, 'nct', scenario(big['case'], 'random', seed + len(jobs), cwb=cwb)))
     logs = pipeline.execute([j[2] for j in jobs])
     r.evaluations = len(jobs)
     r.traces = len(jobs)
